@@ -28,6 +28,12 @@ theorem unmatched_mode_source_is_model (ext : Py.Ext) (e : Py.Env) (m : Option S
     okV (Generated.Modes.UnmatchedMode.value ext e effs) = some (.bool (unmatchedMode m)) :=
   unmatched_mode_bridge ext e m effs h1 h2
 
+/-- `source-mode` (C20): the csvpath reads its predecessor's collected lines iff the field is `preceding` -/
+theorem source_mode_source_is_model (ext : Py.Ext) (e : Py.Env) (m : Option String) (effs : List Py.Eff)
+    (h1 : e "self._source_mode" = .none) (h2 : e "self.controller.get(source-mode)" = optStr m) :
+    okV (Generated.Modes.SourceMode.value ext e effs) = some (.bool (sourceMode m)) :=
+  source_mode_bridge ext e m effs h1 h2
+
 /-- the settings the property names, as written -/
 theorem c15_settings :
     returnMode (some "no-matches") = some true ∧ returnMode (some "matches") = some false ∧ returnMode none = some false ∧
